@@ -65,6 +65,7 @@ from vgi_rpc.utils import ArrowSerializableDataclass, ValidatedReader, empty_bat
 from .._common import _RpcHttpError
 from ._responses import _current_response_status, _enforce_response_budgets
 from ._state_token import (
+    _call_token_digest,
     _compute_aad,
     _compute_call_aad,
     _deserialize_state_bytes,
@@ -321,7 +322,14 @@ def _run_stream_init_sync(
             app._call_state_cache.put(
                 call_id,
                 auth,
-                _ResolvedCall(result.call_state, result.output_schema, result.input_schema, stream_id, call_created_at),
+                _ResolvedCall(
+                    result.call_state,
+                    result.output_schema,
+                    result.input_schema,
+                    stream_id,
+                    call_created_at,
+                    _call_token_digest(call_token),
+                ),
                 float(call_created_at),
             )
 
@@ -1141,8 +1149,13 @@ def _unpack_and_recover_state(
     that authenticated ``call_id`` used as a cache key.  A client cannot
     name a call id the server did not mint for it, so a cache hit can never
     hand back another principal's call state — and on a hit the presented
-    call token is not consulted at all, which is exactly the work we are
-    trying to avoid.
+    call token is not opened at all, which is exactly the work we are
+    trying to avoid.  It is still compared, by digest, with the token the
+    entry was built from: a request that echoes a different call token (a
+    modified one, another stream's, another principal's, the cursor itself)
+    gets the same answer from a warm process as from a cold one.  Only a
+    request that omits the call token altogether is served from the cache
+    alone, as the wire protocol allows.
 
     On a miss (cold process, evicted entry, or a request load-balanced to a
     node that never saw this stream's ``/init``) the client-supplied call
@@ -1186,6 +1199,15 @@ def _unpack_and_recover_state(
 
     now = time.time()
     resolved = app._call_state_cache.get(call_id, auth, now)
+    if (
+        resolved is not None
+        and call_token is not None
+        and not secrets.compare_digest(_call_token_digest(call_token), resolved.token_digest)
+    ):
+        # The request carries a call token, but not the one this entry was
+        # built from.  Do not let the entry vouch for it: take the verified
+        # path, which rejects anything that is not this call's own token.
+        resolved = None
     if resolved is None:
         resolved = _resolve_call_from_token(app, call_token, call_id, state_info, auth)
         # Count the entry's lifetime from the call token's own creation time:
@@ -1309,4 +1331,4 @@ def _resolve_call_from_token(
                 status_code=HTTPStatus.BAD_REQUEST,
             ) from exc
 
-    return _ResolvedCall(call_state, output_schema, input_schema, stream_id, created_at)
+    return _ResolvedCall(call_state, output_schema, input_schema, stream_id, created_at, _call_token_digest(call_token))
